@@ -547,3 +547,11 @@ func c11r7(r *R) {
 		}
 	}
 }
+
+func init() {
+	p := registry["C11"]
+	p.Rules = append(p.Rules, ruleDef{"C11.R8", func(r *R) {
+		forkSiblingRule(r, "C11.R8", "server.go", "timer.go")
+	}})
+	wantRefs("C11")
+}
